@@ -734,7 +734,7 @@ def reuse_stream(ck, tmp):
     fails = []
     rng = ck.rng
     key = bytes(rng.randrange(256) for _ in range(32))
-    seqs = [[(5000, 0x40000123, "sha-512"), (16, 7, "sha-256"), (17, 2 ** 32 - 1, "shake256"), (0, 0, "sha-384"), (4096, 24, "shake128")]]
+    seqs = [[(5000, 0x40000123, "sha-512"), (16, 7, "sha-256"), (16, 7, "sha-256"), (17, 2 ** 32 - 1, "shake256"), (0, 0, "sha-384"), (0, 0, "sha-384"), (4096, 24, "shake128")]]
     if ck.deep:
         seqs.append([(rng.choice(SIZES), rng.choice(KIDS), rng.choice(ALGS)) for _ in range(12)])
     for via in ("lib", "cli"):
@@ -744,7 +744,7 @@ def reuse_stream(ck, tmp):
             out = fresh_dir(d, "out")
             fw = os.path.join(d, "fw.bin")
             for step, (n, kid, halg) in enumerate(seq):
-                pt = mkpt(n, 7000 + step)
+                pt = mkpt(n, 7000 + n % 97)          # equal steps = the same firmware again (a rebuild)
                 with open(fw, "wb") as fh:
                     fh.write(pt)
                 rc = 0
@@ -764,8 +764,8 @@ def reuse_stream(ck, tmp):
                 ck.count("reuse", (via, si, step), nontrivial=step > 0, sample={"via": via, "step": step, "plaintext_len": n, "key_id": kid, "hash_alg": halg,
                                                                                      "history": "same --output-dir as the previous steps"})
                 if why:
-                    r = rec_eag(f"{via} encrypt-and-generate, step {step} of successive runs into one output directory", key, n, 7000 + step, kid, halg, why)
-                    r["input"]["history"] = [{"plaintext_len": a, "plaintext_seed": 7000 + i, "key_id": b, "hash_alg": c} for i, (a, b, c) in enumerate(seq[:step + 1])]
+                    r = rec_eag(f"{via} encrypt-and-generate, step {step} of successive runs into one output directory", key, n, 7000 + n % 97, kid, halg, why)
+                    r["input"]["history"] = [{"plaintext_len": a, "plaintext_seed": 7000 + a % 97, "key_id": b, "hash_alg": c} for i, (a, b, c) in enumerate(seq[:step + 1])]
                     fails.append(r)
                     break
             # generate-info into a directory that holds longer artifacts of the same names
